@@ -28,13 +28,17 @@ func invokes(in ssa.Instruction, pkgSuffix, name string) bool {
 }
 
 func runC09(c *core.Ctx) core.Meta {
-	c.Load(dispPkg, resPkg, cpPkg, cuPkg, emuPkg, "amd/samples/runner/timingconfig/mi300a", "amd/samples/runner/timingconfig/r9nano")
+	c.Load(dispPkg, resPkg, cpPkg, cuPkg, emuPkg, kernelsPkg, "amd/samples/runner/timingconfig/mi300a", "amd/samples/runner/timingconfig/r9nano")
 	c.BuildSSA()
 	prov := core.NewProv(c)
 	pd := NewPkgInfo(c, dispPkg)
 	pr := NewPkgInfo(c, resPkg)
 	pc := NewPkgInfo(c, cpPkg)
 	checkNoCompactionWhileRanging(c, "R09.12", 6, pd, pr, pc)
+	{
+		st13 := c.Rule("R09.13", "the partition algorithm positions compute unit i's grid builder with Skip(i * share), where share comes from the filtered work-group count: GridBuilder.Skip therefore advances by accepted work-groups (it calls NextWG, which applies the filter), not by grid positions. An arithmetic Skip makes the partitions of a filtered launch (every member of a unified multi-GPU device but the first) overlap: some work-groups are mapped to several compute units and as many never run, with the dispatched count still right", 1)
+		checkSkipCountsAccepted(c, st13, "R09.13")
+	}
 
 	// ---------------- R09.1 placement algorithms agree ----------------
 	checkPlacementSiblings(c, pd, prov, "R09.1")
@@ -357,133 +361,7 @@ func runC09(c *core.Ctx) core.Meta {
 		}
 	}
 
-	st4 := c.Rule("R09.4", "the launch response is constructed only where kernelCompleted() held; kernelCompleted returns true only after testing no pending work-group, no further work-group and completed >= dispatched; the response answers the dispatching request; a dispatcher starts a kernel only when it is not dispatching", 4)
-	var kc *ssa.Function
-	for _, fn := range pd.Funcs {
-		// structural: bool function reading currWG.valid and comparing the two counters
-		if fn.Signature.Results().Len() != 1 || fn.Signature.Params().Len() != 0 {
-			continue
-		}
-		hasCmp := false
-		for _, b := range fn.Blocks {
-			for _, in := range b.Instrs {
-				if bo, ok := in.(*ssa.BinOp); ok {
-					x, y := prov.Of(bo.X), prov.Of(bo.Y)
-					if (x == "recv.numCompletedWGs" && y == "recv.numDispatchedWGs") || (y == "recv.numCompletedWGs" && x == "recv.numDispatchedWGs") {
-						hasCmp = true
-					}
-				}
-			}
-		}
-		if !hasCmp {
-			// the comparison may sit in a one-expression predicate helper
-			for _, b := range fn.Blocks {
-				for _, in := range b.Instrs {
-					if v, ok := in.(ssa.Value); ok {
-						if body, ok := predicateBody(v); ok {
-							if bo, ok := body.(*ssa.BinOp); ok {
-								x, y := prov.Of(bo.X), prov.Of(bo.Y)
-								if (x == "recv.numCompletedWGs" && y == "recv.numDispatchedWGs") || (y == "recv.numCompletedWGs" && x == "recv.numDispatchedWGs") {
-									hasCmp = true
-								}
-							}
-						}
-					}
-				}
-			}
-		}
-		// the predicate is the candidate with the largest body (a helper that holds only the comparison is part of it)
-		if hasCmp && (kc == nil || len(fn.Blocks) > len(kc.Blocks)) {
-			kc = fn
-		}
-	}
-	if kc == nil {
-		c.Report(core.Finding{Rule: "R09.4", Kind: "anchor", Pkg: dispPkg, Func: "-", Detail: "kernel-completed-predicate", Msg: "no predicate comparing numCompletedWGs with numDispatchedWGs found"})
-	} else {
-		g := core.BuildGraph(kc, 0, nil)
-		cuts := map[string]EdgeCut{
-			"no pending work-group (currWG.valid == false)": BoolFieldCut("dispatchLocation.valid", false),
-			"no further work-group (alg.HasNext() == false)": boolCut(func(_ *core.Node, v ssa.Value) bool {
-				in, ok := v.(ssa.Instruction)
-				return ok && invokes(in, "/dispatching", "HasNext")
-			}, false),
-			"completed >= dispatched": CmpCut(func(_ *core.Node, op token.Token, x, y ssa.Value) int {
-				px, py := prov.Of(x), prov.Of(y)
-				if px == "recv.numCompletedWGs" && py == "recv.numDispatchedWGs" {
-					switch op {
-					case token.LSS:
-						return -1
-					case token.GEQ:
-						return 1
-					case token.EQL:
-						return 1
-					case token.NEQ:
-						return -1
-					}
-				}
-				if py == "recv.numCompletedWGs" && px == "recv.numDispatchedWGs" {
-					switch op {
-					case token.GTR:
-						return -1
-					case token.LEQ:
-						return 1
-					}
-				}
-				return 0
-			}),
-		}
-		for _, r := range g.NodesWhere(func(n *core.Node) bool { _, ok := n.Instr.(*ssa.Return); return ok }) {
-			ret := r.Instr.(*ssa.Return)
-			if b, isC := core.ConstBool(ret.Results[0]); isC && !b {
-				continue
-			}
-			for _, what := range sortedKeys(cuts) {
-				st4.Instances++
-				ok := g.Guarded(r, cuts[what])
-				if !ok && what == "completed >= dispatched" {
-					// `return completed >= dispatched` establishes the conjunct by returning it
-					if bo, isB := ret.Results[0].(*ssa.BinOp); isB {
-						px, py := prov.Of(bo.X), prov.Of(bo.Y)
-						if (px == "recv.numCompletedWGs" && py == "recv.numDispatchedWGs" && (bo.Op == token.GEQ || bo.Op == token.EQL)) ||
-							(py == "recv.numCompletedWGs" && px == "recv.numDispatchedWGs" && bo.Op == token.LEQ) {
-							ok = true
-						}
-					}
-				}
-				st4.Ob(ok)
-				st4.Sample("kernelCompleted: return true guarded by %s: %v", what, ok)
-				if !ok {
-					c.ReportAt("R09.4", kc, ret.Pos(), "kernelCompleted:"+strings.Fields(what)[0]+strings.Fields(what)[1], "the kernel is declared completed on a path that did not establish: "+what)
-				}
-			}
-		}
-		isRspNew := func(in ssa.Instruction) bool {
-			return core.IsCall(in, core.ModPath+"/amd/protocol.NewLaunchKernelRsp")
-		}
-		n, ung := pd.GuardedUp(isRspNew, CallFnCut(true, map[*ssa.Function]bool{kc: true}))
-		st4.Instances += n
-		if n != 1 {
-			c.Report(core.Finding{Rule: "R09.4", Pkg: dispPkg, Func: "-", Detail: "LaunchKernelRsp:sites", Msg: fmt.Sprintf("%d construction sites of LaunchKernelRsp in the dispatcher; exactly one expected", n)})
-		}
-		for i := 0; i < n-len(ung); i++ {
-			st4.Ob(true)
-		}
-		for _, u := range ung {
-			st4.Ob(false)
-			c.ReportAt("R09.4", u.Target.Fn(), u.Target.Instr.Pos(), "LaunchKernelRsp:guard", "the launch response is built on a path that did not find kernelCompleted() true")
-		}
-		pd.Instrs(func(fn *ssa.Function, in ssa.Instruction) {
-			if isRspNew(in) {
-				st4.Instances++
-				pv := prov.Of(in.(ssa.Value))
-				ok := pv == "protocol.NewLaunchKernelRsp(recv.dispatching.Dst,recv.dispatching.Src,recv.dispatching.ID)"
-				st4.Ob(ok)
-				if !ok {
-					c.ReportAt("R09.4", fn, in.Pos(), "LaunchKernelRsp:fields", "the launch response does not answer the dispatching request (Dst, Src, ID of d.dispatching): "+pv)
-				}
-			}
-		})
-	}
+	st4 := checkLaunchResponse(c, pd, prov, "R09.4")
 	// the CP only starts a kernel on a dispatcher that is not dispatching
 	for _, fn := range pc.Funcs {
 		for _, b := range fn.Blocks {
@@ -1288,4 +1166,140 @@ func checkPlacementSiblings(c *core.Ctx, pd *PkgInfo, prov *core.Prov, rule stri
 		c.Report(core.Finding{Rule: rule, Kind: "floor", Pkg: dispPkg, Func: "-", Detail: "algorithm-count", Msg: fmt.Sprintf("%d implementations of dispatching.algorithm found, 3 confirmed by hand", len(algTypes))})
 	}
 
+}
+
+// checkLaunchResponse (R09.4, shared with C08 as R08.9): the launch response - the announcement
+// that all NumWG work-groups of the grid ran - is built only under kernelCompleted(), and
+// kernelCompleted returns true only after finding no pending work-group (a location the
+// algorithm already handed out and counted, kept in currWG because the port refused it), no
+// further work-group and completed >= dispatched.
+func checkLaunchResponse(c *core.Ctx, pd *PkgInfo, prov *core.Prov, rule string) *core.RuleStat {
+	st4 := c.Rule(rule, "the launch response is constructed only where kernelCompleted() held; kernelCompleted returns true only after testing no pending work-group, no further work-group and completed >= dispatched; the response answers the dispatching request; a dispatcher starts a kernel only when it is not dispatching", 4)
+	var kc *ssa.Function
+	for _, fn := range pd.Funcs {
+		// structural: bool function reading currWG.valid and comparing the two counters
+		if fn.Signature.Results().Len() != 1 || fn.Signature.Params().Len() != 0 {
+			continue
+		}
+		hasCmp := false
+		for _, b := range fn.Blocks {
+			for _, in := range b.Instrs {
+				if bo, ok := in.(*ssa.BinOp); ok {
+					x, y := prov.Of(bo.X), prov.Of(bo.Y)
+					if (x == "recv.numCompletedWGs" && y == "recv.numDispatchedWGs") || (y == "recv.numCompletedWGs" && x == "recv.numDispatchedWGs") {
+						hasCmp = true
+					}
+				}
+			}
+		}
+		if !hasCmp {
+			// the comparison may sit in a one-expression predicate helper
+			for _, b := range fn.Blocks {
+				for _, in := range b.Instrs {
+					if v, ok := in.(ssa.Value); ok {
+						if body, ok := predicateBody(v); ok {
+							if bo, ok := body.(*ssa.BinOp); ok {
+								x, y := prov.Of(bo.X), prov.Of(bo.Y)
+								if (x == "recv.numCompletedWGs" && y == "recv.numDispatchedWGs") || (y == "recv.numCompletedWGs" && x == "recv.numDispatchedWGs") {
+									hasCmp = true
+								}
+							}
+						}
+					}
+				}
+			}
+		}
+		// the predicate is the candidate with the largest body (a helper that holds only the comparison is part of it)
+		if hasCmp && (kc == nil || len(fn.Blocks) > len(kc.Blocks)) {
+			kc = fn
+		}
+	}
+	if kc == nil {
+		c.Report(core.Finding{Rule: rule, Kind: "anchor", Pkg: dispPkg, Func: "-", Detail: "kernel-completed-predicate", Msg: "no predicate comparing numCompletedWGs with numDispatchedWGs found"})
+	} else {
+		g := core.BuildGraph(kc, 0, nil)
+		cuts := map[string]EdgeCut{
+			"no pending work-group (currWG.valid == false)": BoolFieldCut("dispatchLocation.valid", false),
+			"no further work-group (alg.HasNext() == false)": boolCut(func(_ *core.Node, v ssa.Value) bool {
+				in, ok := v.(ssa.Instruction)
+				return ok && invokes(in, "/dispatching", "HasNext")
+			}, false),
+			"completed >= dispatched": CmpCut(func(_ *core.Node, op token.Token, x, y ssa.Value) int {
+				px, py := prov.Of(x), prov.Of(y)
+				if px == "recv.numCompletedWGs" && py == "recv.numDispatchedWGs" {
+					switch op {
+					case token.LSS:
+						return -1
+					case token.GEQ:
+						return 1
+					case token.EQL:
+						return 1
+					case token.NEQ:
+						return -1
+					}
+				}
+				if py == "recv.numCompletedWGs" && px == "recv.numDispatchedWGs" {
+					switch op {
+					case token.GTR:
+						return -1
+					case token.LEQ:
+						return 1
+					}
+				}
+				return 0
+			}),
+		}
+		for _, r := range g.NodesWhere(func(n *core.Node) bool { _, ok := n.Instr.(*ssa.Return); return ok }) {
+			ret := r.Instr.(*ssa.Return)
+			if b, isC := core.ConstBool(ret.Results[0]); isC && !b {
+				continue
+			}
+			for _, what := range sortedKeys(cuts) {
+				st4.Instances++
+				ok := g.Guarded(r, cuts[what])
+				if !ok && what == "completed >= dispatched" {
+					// `return completed >= dispatched` establishes the conjunct by returning it
+					if bo, isB := ret.Results[0].(*ssa.BinOp); isB {
+						px, py := prov.Of(bo.X), prov.Of(bo.Y)
+						if (px == "recv.numCompletedWGs" && py == "recv.numDispatchedWGs" && (bo.Op == token.GEQ || bo.Op == token.EQL)) ||
+							(py == "recv.numCompletedWGs" && px == "recv.numDispatchedWGs" && bo.Op == token.LEQ) {
+							ok = true
+						}
+					}
+				}
+				st4.Ob(ok)
+				st4.Sample("kernelCompleted: return true guarded by %s: %v", what, ok)
+				if !ok {
+					c.ReportAt(rule, kc, ret.Pos(), "kernelCompleted:"+strings.Fields(what)[0]+strings.Fields(what)[1], "the kernel is declared completed on a path that did not establish: "+what)
+				}
+			}
+		}
+		isRspNew := func(in ssa.Instruction) bool {
+			return core.IsCall(in, core.ModPath+"/amd/protocol.NewLaunchKernelRsp")
+		}
+		n, ung := pd.GuardedUp(isRspNew, CallFnCut(true, map[*ssa.Function]bool{kc: true}))
+		st4.Instances += n
+		if n != 1 {
+			c.Report(core.Finding{Rule: rule, Pkg: dispPkg, Func: "-", Detail: "LaunchKernelRsp:sites", Msg: fmt.Sprintf("%d construction sites of LaunchKernelRsp in the dispatcher; exactly one expected", n)})
+		}
+		for i := 0; i < n-len(ung); i++ {
+			st4.Ob(true)
+		}
+		for _, u := range ung {
+			st4.Ob(false)
+			c.ReportAt(rule, u.Target.Fn(), u.Target.Instr.Pos(), "LaunchKernelRsp:guard", "the launch response is built on a path that did not find kernelCompleted() true")
+		}
+		pd.Instrs(func(fn *ssa.Function, in ssa.Instruction) {
+			if isRspNew(in) {
+				st4.Instances++
+				pv := prov.Of(in.(ssa.Value))
+				ok := pv == "protocol.NewLaunchKernelRsp(recv.dispatching.Dst,recv.dispatching.Src,recv.dispatching.ID)"
+				st4.Ob(ok)
+				if !ok {
+					c.ReportAt(rule, fn, in.Pos(), "LaunchKernelRsp:fields", "the launch response does not answer the dispatching request (Dst, Src, ID of d.dispatching): "+pv)
+				}
+			}
+		})
+	}
+	return st4
 }
